@@ -789,6 +789,14 @@ def model (kv : List (String × String)) : Option (Option String × String) := d
     let m ← poptModel kv
     pure (m, s!"pool config, plugin type of `{getS kv "where"}`")
   | "mas" => pure (none, s!"{getS kv "fmt"} provider (max_ammo_size)")
+  | "runend" =>
+    -- a file that cannot be opened: the http providers open it in their constructor, grpc/json and the generic JSON provider in Run
+    let fault := getS kv "fault"
+    let prov := getS kv "prov"
+    let m := if fault == "missing" || fault == "perm" then
+        (if prov == "grpcjson" || prov == "genjson" then some "run=err n=0 end=closed" else some "end=ctor-err")
+      else none
+    pure (m, s!"{prov} provider after Run returned")
   | "csv" =>
     let m ← csvModel kv
     pure (m, s!"{getS kv "kind"}/scenario provider (csv variable source)")
@@ -864,6 +872,11 @@ def masVerdict (kv : List (String × String)) (impl : String) : Option String :=
   some (masJudge s!"{getS kv "fmt"} provider (max_ammo_size)" (getS kv "fmt") ((getS kv "mas").toInt?.getD 0)
     ((split data 10).map fun l => (l.length : Int)) impl)
 
+/-- `k=runend`: after `Run` returned every `Acquire` returns (round 6) -/
+def runendVerdict (kv : List (String × String)) (impl : String) : Option String := do
+  if getS kv "k" != "runend" then none
+  some (runendJudge s!"{getS kv "prov"} provider" (getS kv "fault") impl)
+
 def handle : Handler := fun input impl =>
   let kv := parseKV input
   match model kv with
@@ -875,7 +888,7 @@ def handle : Handler := fun input impl =>
     if m.isNone && getS kv "k" == "ammo" && getS kv "cc" != "" && getS kv "passes" == "0" && getS kv "limit" == "0" &&
         containsSub impl "hang" then ("-", "skip:inconclusive") else
     let isGrpc := getS kv "k" == "ammo" && getS kv "fmt" == "grpcjson"
-    let verdict := match (((randIntVerdict kv impl).orElse (fun _ => pfxVerdict kv impl)).orElse (fun _ => fltVerdict kv impl)).orElse (fun _ => masVerdict kv impl) with
+    let verdict := match ((((randIntVerdict kv impl).orElse (fun _ => pfxVerdict kv impl)).orElse (fun _ => fltVerdict kv impl)).orElse (fun _ => masVerdict kv impl)).orElse (fun _ => runendVerdict kv impl) with
       | some v => v
       | none =>
         if isGrpc then
